@@ -101,6 +101,9 @@ def shapes(quick):
     reg('dt-kathmandu', lambda h, l: h.dt(2021, 1, 15, 0, 0, 1, 0, 20700, 'Asia/Kathmandu'))
     reg('dt-london-winter', lambda h, l: h.dt(2021, 1, 15, 12, 0, 0, 0, 0, 'Europe/London'))
     reg('dt-reykjavik', lambda h, l: h.dt(2021, 7, 15, 12, 0, 0, 0, 0, 'Atlantic/Reykjavik'))
+    # zone ids without an area prefix
+    reg('dt-japan', lambda h, l: h.dt(2021, 1, 15, 12, 0, 0, 0, 32400, 'Japan'))
+    reg('dt-singapore', lambda h, l: h.dt(2021, 1, 15, 12, 0, 0, 0, 28800, 'Singapore'))
     reg('dt-knox', lambda h, l: h.dt(2021, 1, 15, 12, 0, 0, 0, -21600, 'America/Indiana/Knox'))
     reg('dt-buenos-aires', lambda h, l: h.dt(2021, 1, 15, 12, 0, 0, 0, -10800, 'America/Argentina/Buenos_Aires'))
     # collections
